@@ -27,7 +27,7 @@ Init == /\ store \in Inits /\ now = T0 /\ db \in DBs
         /\ last = NoCmd /\ reply = RNil /\ steps = 0
 
 Do(a) == /\ steps < MaxSteps
-         /\ LET o == Exec(Ctx, a) IN
+         /\ LET o == Exec(Ctx, a, RNil) IN
             /\ o.rel = "eq"
             /\ store' = o.S /\ reply' = o.r
          /\ last' = a /\ steps' = steps + 1 /\ UNCHANGED <<now, db>>
@@ -67,7 +67,7 @@ ErrNoChange == [][reply'.t = "err" /\ last' # NoCmd => Norm(store', now') = Norm
 ByteExact ==
     [][(last' # NoCmd /\ OpOf(last') = "SET" /\ Len(last') = 3 /\ reply'.t = "ok")
         => Exec([S |-> store', now |-> now', db |-> db', D |-> {}],
-                <<[s |-> "GET"], last'[2]>>).r = RStr(TokBytes(last'[3]))]_vars
+                <<[s |-> "GET"], last'[2]>>, RNil).r = RStr(TokBytes(last'[3]))]_vars
 
 \* C01/C13 frame: a command changes only keys it names in the selected database (flushes aside)
 Frame ==
@@ -82,8 +82,8 @@ ReadOnlyPure == [][last' # NoCmd /\ OpOf(last') \in ReadOps => Norm(store', now'
 \* C04  an expired key is unobservable: every command behaves exactly as if it were not there
 Unobservable ==
     \A a \in Cmds :
-        LET o1 == Exec(Ctx, a)
-            o2 == Exec([Ctx EXCEPT !.S = Norm(store, now)], a)
+        LET o1 == Exec(Ctx, a, RNil)
+            o2 == Exec([Ctx EXCEPT !.S = Norm(store, now)], a, RNil)
         IN o1.r = o2.r /\ Norm(o1.S, now) = Norm(o2.S, now)
 
 \* C04  expiry never removes a key before its deadline: the clock alone changes nothing, and a
@@ -102,7 +102,7 @@ TtlAgrees ==
         x[1] = db =>
         LET k == [s |-> x[2]]
             d == store[x].d
-            q(op) == Exec(Ctx, <<[s |-> op], k>>).r
+            q(op) == Exec(Ctx, <<[s |-> op], k>>, RNil).r
         IN /\ q("PEXPIRETIME") = RInt(IF d = NoD THEN -1 ELSE d)
            /\ q("PTTL") = RInt(IF d = NoD THEN -1 ELSE d - now)
            /\ q("EXPIRETIME") = RInt(IF d = NoD THEN -1 ELSE d \div 1000)
